@@ -145,16 +145,52 @@ NullCases ==
                            <<Set("hit", Lit(Null)), If1(Bin("==", Var("i"), LI(2)), <<Set("hit", Var("i"))>>), T1(91), PrintS(Var("hit")), T1(93)>>)>>]}
     \cup {[fam |-> "setp", ctx |-> ("v" :> VI(4)), tags |-> {"set", "null", "ctxvar"},
             prog |-> <<Set("v", Lit(Null)), T1(91), PrintS(Var("v")), T1(93)>>]}
-AllCases == IfCases \cup EmptyBranchCases \cup NullCases \cup CompIfCases \cup LitIfCases \cup LoopCases \cup KvCases \cup NestCases \cup Nest3 \cup SetCases
+\* ---- values of defined and sized Go types as conditions -----------------------------------
+NamedVals == [ d0 |-> VN(VB(FALSE), "def"), d1 |-> VN(VB(TRUE), "def"), d2 |-> VN(VI(0), "def"), d3 |-> VN(VI(3), "def"),
+               d4 |-> VN(VD(0, 0), "def"), d5 |-> VN(VD(5, 1), "def"), d6 |-> VN(VS(<<>>), "def"), d7 |-> VN(VS(<<97>>), "def"),
+               d8 |-> VN(VI(0), "i8"), d9 |-> VN(VI(-1), "i8"), e0 |-> VN(VI(0), "i64"), e1 |-> VN(VI(0), "u16"), e2 |-> VN(VI(7), "u64"),
+               e3 |-> VN(VI(0), "f32"), e4 |-> VN(VI(2), "f32"), e5 |-> VN(VI(0), "u64") ]
+NamedCtx == [n \in DOMAIN NamedVals |-> NamedVals[n]]
+NamedCases == {[fam |-> "ifnamed", prog |-> <<IfElse(Var(n), <<T1(65)>>, <<T1(69)>>), If(<<LB(FALSE), Var(n)>>, <<<<T1(66)>>, <<T1(67)>>>>, <<T1(68)>>, TRUE),
+                                             IfElse(Un("not", Var(n)), <<T1(78)>>, <<T1(89)>>), PrintS(Cond(Var(n), LI(1), LI(2)))>>,
+                 ctx |-> NamedCtx, tags |-> {"if", "named", "kind:" \o NamedVals[n].kind, "under:" \o NamedVals[n].u.t}] : n \in DOMAIN NamedVals}
+              \cup {[fam |-> "ifnamed", prog |-> <<For1("x", Var("xs"), <<IfElse(Var("x"), <<T1(65)>>, <<T1(69)>>)>>)>>,
+                     ctx |-> ("xs" :> VL(<<NamedVals.d0, NamedVals.d1, NamedVals.d2, NamedVals.d6, NamedVals.d7, NamedVals.e3>>)), tags |-> {"if", "named", "inloop"}]}
 
-World(c) == MkW(("main" :> c.prog), {}, {}, NoFault)
-Ref(c) == Render(World(c), "main", c.ctx)
+\* ---- the same for tag active several times at once (recursive include, recursive macro) ----
+Trees == {VL(<<VL(<<>>), VL(<<VL(<<>>), VL(<<>>)>>), VL(<<>>)>>), VL(<<VL(<<VL(<<>>)>>)>>),
+          VL(<<VL(<<VL(<<>>), VL(<<>>), VL(<<>>)>>), VL(<<>>)>>), VL(<<>>), VL(<<VL(<<>>)>>)}
+RecBody(inner) == <<For1("c", Var("n"), <<PrintS(Attr(Var("loop"), "index")), T1(40)>> \o inner \o <<T1(41)>> \o OuterProbe
+                                         \o <<If1(Attr(Var("loop"), "first"), <<T1(102)>>), PrintS(Attr(Var("loop"), "index0")), T1(59)>>)>>
+RecCases == {[fam |-> "rec", prog |-> <<Inc(LS(NT.t1))>>, ctx |-> ("n" :> tr), tags |-> {"for", "recursive", "include"},
+              tps |-> ("t1" :> RecBody(<<Include(LS(NT.t1), Hash(<<LS(NT.n)>>, <<Var("c")>>), TRUE, FALSE, FALSE, FALSE)>>))] : tr \in Trees}
+            \cup {[fam |-> "rec", ctx |-> ("n" :> tr), tags |-> {"for", "recursive", "macro"}, tps |-> EmptyFn,
+                    prog |-> <<Macro("m1", <<Param("n")>>, RecBody(<<PrintS(MCall("_self", "m1", <<Var("c")>>))>>)),
+                               PrintS(MCall("_self", "m1", <<Var("n")>>))>>] : tr \in Trees}
+
+\* ---- set and loop variables win over engine globals of the same name ----------------------
+GlobalProgs == {<<PrintS(Var("g")), T1(124), Set("g", LI(5)), PrintS(Var("g")), T1(124), IfElse(Bin("==", Var("g"), LI(5)), <<T1(65)>>, <<T1(69)>>),
+                  Set("g", Bin("+", Var("g"), LI(1))), PrintS(Var("g"))>>,
+                <<For1("g", Lit(IntList(2)), <<PrintS(Var("g")), T1(44)>>)>>,
+                <<For1("i", Lit(IntList(2)), <<Set("g", Var("i")), PrintS(Var("g")), T1(44)>>), PrintS(Var("g"))>>,
+                <<Set("g", Lit(Null)), T1(91), PrintS(Var("g")), T1(93)>>,
+                <<PrintS(Var("g")), T1(124), PrintS(Var("h"))>>}
+GlobalCases == {[fam |-> "global", prog |-> p, ctx |-> cx, globals |-> ("g" :> VI(77)) @@ ("h" :> VS(<<104>>)), tags |-> {"set", "global"}]
+                : p \in GlobalProgs, cx \in {EmptyFn, ("h" :> VI(3))}}
+
+AllCases == NamedCases \cup RecCases \cup GlobalCases \cup IfCases \cup EmptyBranchCases \cup NullCases \cup CompIfCases \cup LitIfCases \cup LoopCases \cup KvCases \cup NestCases \cup Nest3 \cup SetCases
+
+Tps(c) == ("main" :> c.prog) @@ (IF "tps" \in DOMAIN c THEN c.tps ELSE EmptyFn)
+World(c) == MkW(Tps(c), {}, {}, NoFault)
+\* globals are the outermost scope: the context wins over them, and so does everything the template binds
+Ref(c) == Render(World(c), "main", IF "globals" \in DOMAIN c THEN c.ctx @@ c.globals ELSE c.ctx)
 
 CaseOf(c) ==
     LET ref == Ref(c) IN
     [prop |-> "C09", key |-> ToJson([p |-> c.prog, c |-> c.ctx]), tags |-> c.tags \cup {"fam:" \o c.fam},
      entry |-> "main", ctx |-> c.ctx,
-     runs |-> {[label |-> c.fam, tp |-> ("main" :> Source(c.prog, LMin)), xcalls |-> [id \in {} |-> 0]]},
+     runs |-> {[label |-> c.fam, tp |-> Sources(Tps(c), LMin), xcalls |-> [id \in {} |-> 0]]},
+     cfg |-> [globals |-> IF "globals" \in DOMAIN c THEN c.globals ELSE EmptyFn],
      expect |-> [ok |-> ref.ok, out |-> ref.out, err |-> ref.err, calls |-> [id \in {} |-> 0]]]
 
 Init == cs \in {c \in AllCases : Ref(c).err # "frag"}
